@@ -48,24 +48,63 @@ package math
 //@ modifies nothing
 //@ ensures [byte] 0 <= result && result < 256
 
-// Exp: a NEW integer holding a 256-bit word; base is squared in place (destroyed), exponent is only read.
-// That the word is base^exponent mod 2^256 needs reasoning about the square-and-multiply loop: not decided.
+// Modular exponentiation b^e mod 2^256 (e >= 0), defined by the binary recurrence
+//     b^0 = 1,   b^(2k) = (b*b)^k,   b^(2k+1) = b * (b*b)^k        (all modulo 2^256)
+// in accumulator form: c15PowAcc(r, c, e) = r * c^e mod 2^256. A recursive DEFINITION (nothing assumed by the engine);
+// that it coincides with the school definition b*b*...*b mod 2^256 is the textbook identity behind the recurrence.
+//@ spec rec func c15PowAcc(r: int, c: int, e: int) int =
+//@     if e <= 0 then r % 2^256
+//@     else if e % 2 == 0 then c15PowAcc(r, (c * c) % 2^256, e / 2)
+//@     else c15PowAcc((r * c) % 2^256, (c * c) % 2^256, e / 2)
+// EXP of the Yellow Paper: mu'[0] = mu[0]^mu[1] mod 2^256
+//@ spec func c15ExpWord(b: int, e: int) int = c15PowAcc(1, b, e)
+// c15Shl(h, j) = h * 2^j (j >= 0), by iterated doubling (keeps the bit loop's arithmetic linear for the solver)
+//@ spec rec func c15Shl(h: int, j: int) int = if j <= 0 then h else 2 * c15Shl(h, j - 1)
+//@ lemma [C15.pow-samples] c15ExpWord(3, 5) == 243 && c15ExpWord(2, 255) == 2^255 && c15ExpWord(2, 256) == 0 && c15ExpWord(0, 0) == 1 && c15ExpWord(7, 1) == 7 && c15ExpWord(2^256 - 1, 2) == 1
+
+// Exp: a NEW integer holding base^exponent mod 2^256; base is squared in place (destroyed), exponent is only read.
+// Proof: square-and-multiply over the words of exponent.Bits() (least significant first) and the 64 bits of each word.
+//   outer loop, before word k (k = rangeindex + 1):  result * base_cur^(E div 2^(64k)) == base0^E        (mod 2^256)
+//   inner loop, before bit i of word k:              result * base_cur^(word + 2^(64-i) * (E div 2^(64(k+1)))) == base0^E,   [2^j * h is c15Shl(h, j)]
+//                                                    word < 2^(64-i)   (so after 64 steps word == 0 and the multiplier is 1)
+// Every word, also one whose upper bits are zero, must go through all 64 squarings: otherwise base_cur is not
+// base0^(2^(64(k+1))) when the next word starts and [pow] is not re-established at the outer back edge.
 //@ func Exp props C15
 //@ panics none
-//@ requires base != nil && exponent != nil && c15MathConsts() && c15NotMathConst(base)
+//@ requires base != nil && exponent != nil && base != exponent && c15MathConsts() && c15NotMathConst(base)
+//@ requires big(exponent) >= 0
+//@ let b0 = big(base)
+//@ let e0 = big(exponent)
 //@ modifies big(base)
 //@ ensures [fresh] fresh(result) && result != nil
 //@ ensures [word] 0 <= big(result) && big(result) < 2^256
+//@ ensures [power] big(result) == c15ExpWord(b0, e0)
+//@ ensures [exponent-kept] big(exponent) == e0
 //@ ensures [consts] c15MathConsts()
 //@ loop rangeindex invariant [idx] -1 <= rangeindex && rangeindex < 2^63 - 1
-//@ loop rangeindex invariant [res] result != nil && result != base && result >= old(alloc()) && result < alloc()
+//@ loop rangeindex invariant [res] result != nil && result != base && result != exponent && result >= old(alloc()) && result < alloc()
 //@ loop rangeindex invariant [word] 0 <= big(result) && big(result) < 2^256
 //@ loop rangeindex invariant [consts] c15MathConsts()
 //@ loop rangeindex invariant [frame] forall r: *big.Int :: r != base && r < old(alloc()) ==> big(r) == old(big(r))
-//@ loop i invariant [res] result != nil && result != base && result >= old(alloc()) && result < alloc()
+//@ loop rangeindex invariant [nonneg] c15ShrW(e0, rangeindex + 1) >= 0
+//@ loop rangeindex invariant [pow] c15PowAcc(big(result), big(base), c15ShrW(e0, rangeindex + 1)) == c15ExpWord(b0, e0)
+//@ loop i invariant [idx] -1 <= rangeindex && rangeindex < 2^63 - 2 && 0 <= i && i <= 64
+//@ loop i invariant [res] result != nil && result != base && result != exponent && result >= old(alloc()) && result < alloc()
 //@ loop i invariant [word] 0 <= big(result) && big(result) < 2^256
 //@ loop i invariant [consts] c15MathConsts()
 //@ loop i invariant [frame] forall r: *big.Int :: r != base && r < old(alloc()) ==> big(r) == old(big(r))
+//@ loop i invariant [bits-left] 0 <= word && word < c15Pow2(64 - i)
+//@ loop i invariant [nonneg] c15Shl(c15ShrW(e0, rangeindex + 2), 64 - i) >= 0
+//@ loop i invariant [pow] c15PowAcc(big(result), big(base), word + c15Shl(c15ShrW(e0, rangeindex + 2), 64 - i)) == c15ExpWord(b0, e0)
+// stepping stones for one bit (proved in this order, each then assumed): the multiplier halves, the remaining exponent
+// splits into 2 * (next remaining exponent) + (current bit), and the recurrence of c15PowAcc is applied once.
+//@ assert before call (*Int).Mul#1: [odd] word % 2 == 1 && i < 64 && c15Shl(c15ShrW(e0, rangeindex + 2), 64 - i) == 2 * c15Shl(c15ShrW(e0, rangeindex + 2), 63 - i)
+//@ assert before call (*Int).Mul#1: [odd-half] (word + c15Shl(c15ShrW(e0, rangeindex + 2), 64 - i)) / 2 == word / 2 + c15Shl(c15ShrW(e0, rangeindex + 2), 63 - i) && (word + c15Shl(c15ShrW(e0, rangeindex + 2), 64 - i)) % 2 == 1
+//@ assert before call (*Int).Mul#1: [unfold-odd] c15PowAcc((big(result) * big(base)) % 2^256, (big(base) * big(base)) % 2^256, word / 2 + c15Shl(c15ShrW(e0, rangeindex + 2), 63 - i)) == c15ExpWord(b0, e0)
+//@ assert before call (*Int).Mul#2: [halve] i < 64 && c15Shl(c15ShrW(e0, rangeindex + 2), 64 - i) == 2 * c15Shl(c15ShrW(e0, rangeindex + 2), 63 - i)
+//@ assert before call (*Int).Mul#2: [split] word + c15Shl(c15ShrW(e0, rangeindex + 2), 64 - i) == 2 * (word / 2 + c15Shl(c15ShrW(e0, rangeindex + 2), 63 - i)) + word % 2
+//@ assert before call (*Int).Mul#2: [half] (word + c15Shl(c15ShrW(e0, rangeindex + 2), 64 - i)) / 2 == word / 2 + c15Shl(c15ShrW(e0, rangeindex + 2), 63 - i) && (word + c15Shl(c15ShrW(e0, rangeindex + 2), 64 - i)) % 2 == word % 2
+//@ assert before call (*Int).Mul#2: [unfold] c15PowAcc(big(result), (big(base) * big(base)) % 2^256, word / 2 + c15Shl(c15ShrW(e0, rangeindex + 2), 63 - i)) == c15ExpWord(b0, e0)
 
 // ReadBits: writes bytes of buf only (which bytes: the big-endian image of |bigint| — not decided).
 //@ func ReadBits props C15
